@@ -561,6 +561,33 @@ def run(tier):
         if ret_of(cF7.out[2]) != ret_of(cF7c.out[1]) or strip(cF7.out[3]) != strip(cF7c.out[2]):
             v.violation("C15:history:errorCount-stale", "after a failed compile of another list, lou_compileString(A, 'include inc.ctb') returns %s "
                         "(%s without that history)" % (ret_of(cF7.out[2]), ret_of(cF7c.out[1])), {"script": cF7.setup + cF7.ops})
+    # ---------------- lists whose names are prefixes of each other are different lists: a rule added to one does not
+    # show in the other, and 'already used for translation' is per list
+    w = lambda t: common.wide([ord(x) for x in t])
+    iso_setup = ["TBL p.ctb %s" % common.hexbytes("space \\s 0\nsign a 1\n"), "TBL q.ctb %s" % common.hexbytes("sign b 12\n")]
+    for order in ("long-first", "short-first"):
+        L, S = "p.ctb,q.ctb", "p.ctb"
+        first, second = (L, S) if order == "long-first" else (S, L)
+        ops = ["FWD %s 4 8 - 12 %s - -" % (first, w("aa")),                       # `first` is used: finalised
+               "ADD %s %s" % (second, common.hexbytes("always aa 123456")),       # `second` never used: accepted
+               "FWD %s 4 8 - 12 %s - -" % (second, w("aa")),
+               "FWD %s 4 8 - 12 %s - -" % (first, w("aa")),
+               "ADD %s %s" % (first, common.hexbytes("always aa 3456"))]          # refused: already used
+        ciso = common.Case("c15-iso-" + order, iso_setup, ops, {})
+        common.run_cases(exe, [ciso], batch=1, timeout=60)
+        if ciso.fault or len(ciso.out) != len(ops):
+            v.violation("C15:fault:prefix-lists", "fault in the prefix-list scenario (%s)" % order, {"script": iso_setup + ops})
+            continue
+        v.cov["evaluations"] += len(ops)
+        r1, r3, r4 = (common.parse_R(ciso.out[i]) for i in (0, 2, 3))
+        ok = (r1 and r3 and r4 and r1["out"] == [0x8001, 0x8001] and ret_of(ciso.out[1]) == "1" and r3["out"] == [0x803f]
+              and r4["out"] == [0x8001, 0x8001] and ret_of(ciso.out[4]) == "0")
+        if not ok:
+            v.violation("C15:other-list:prefix-name:" + order, "lists %r and %r are different lists: a rule added to the one not yet used must be "
+                        "accepted and show only there, and the used one must refuse additions; got %s" % (L, S, [o.split(" | ")[0][:40] for o in ciso.out]),
+                        {"script": iso_setup + ops, "results": [o[:200] for o in ciso.out]})
+    from .. import dispgrow
+    dispgrow.display_growth(v, exe, tier, "C15", dist)
     v.cov["distribution"] = dist
     for s in seqs[:4]:
         v.sample({"base": s.kind, "arg": s.arg, "flavour": s.flavour, "additions": [a for a, _ in s.adds[:4]], "checkpoints": s.cps})
